@@ -411,6 +411,96 @@ static Outcome run_drbg(const Case &c) {
   return o;
 }
 
+// ---------------------------------------------------------------- sub "giant": ONE request of more than 2^32 bytes (65537+ generate calls)
+// Case: seed{s} giant{k}.  The output buffer is address space only (first and last two 2 MiB windows private, the rest one memfd mapped over and
+// over); the model streams the same 4 GiB and the first generate call, everything from 2^32 - 2 MiB on and the entropy schedule are compared.
+#include <sys/mman.h>
+static rc::Gen<Case> gen_giant(int) {
+  return rc::gen::noShrink(rc::gen::exec([]() {
+    Case c;
+    c.push_back(Op("seed", {*range<int64_t>(0, 0xffffffffLL)}));
+    // at least 65537 FULL generate calls (a 32-bit chunk offset wraps at call 65536), mostly followed by a partial one
+    c.push_back(Op("giant", {*rc::gen::weightedOneOf<int64_t>({{1, range<int64_t>(65536, 65540)}, {3, range<int64_t>(65536, 140000)}})}));
+    return c;
+  }));
+}
+static Outcome run_giant(const Case &c) {
+  Outcome o;
+  if (!shim_entropy_replaced()) {
+    fprintf(stderr, "C11 harness: sub giant needs the binary with the scripted entropy_read\n");
+    exit(3);
+  }
+  ES = EntScript();
+  g_ent_mode = 0;
+  int64_t k = 1;
+  for (auto &op : c) {
+    if (op.k == "seed" && !op.a.empty()) ES.seed = (uint64_t)op.a[0];
+    if (op.k == "giant" && !op.a.empty()) k = std::max<int64_t>(1, std::min<int64_t>(op.a[0], 200000));
+  }
+  shim_set_entropy_cb(ent_cb);
+  const size_t WIN = (size_t)2 << 20;
+  size_t total = ((size_t)1 << 32) + (size_t)k, nwin = (total + WIN - 1) / WIN;
+  uint8_t *out = (uint8_t *)mmap(nullptr, nwin * WIN, PROT_NONE, MAP_PRIVATE | MAP_ANONYMOUS | MAP_NORESERVE, -1, 0);
+  int mfd = memfd_create("c11-window", 0);
+  if (out == MAP_FAILED || mfd < 0 || ftruncate(mfd, (off_t)WIN) != 0) {
+    fprintf(stderr, "C11 harness: cannot set up the 4 GiB output mapping\n");
+    exit(3);
+  }
+  for (size_t w = 0; w < nwin; w++) {
+    bool priv = w == 0 || w + 2 >= nwin;
+    void *r = priv ? mmap(out + w * WIN, WIN, PROT_READ | PROT_WRITE, MAP_PRIVATE | MAP_ANONYMOUS | MAP_FIXED, -1, 0)
+                   : mmap(out + w * WIN, WIN, PROT_READ | PROT_WRITE, MAP_SHARED | MAP_FIXED, mfd, 0);
+    if (r == MAP_FAILED) {
+      fprintf(stderr, "C11 harness: mmap of an output window failed\n");
+      exit(3);
+    }
+  }
+  size_t tail0 = (nwin - 2) * WIN;  // private from here on
+  memset(out, 0xa5, WIN);
+  memset(out + tail0, 0xa5, total - tail0);
+  int rc = shim_crypto_entropy_read(out, total);
+  o.cls("one request of more than 2^32 bytes");
+  o.nontrivial = true;
+  if (rc != 0) {
+    o.fail("drbg-spurious-failure", "crypto_entropy_read(" + std::to_string(total) + " bytes) returned " + std::to_string(rc) + " although the OS entropy source did not fail");
+    return o;
+  }
+  // the model, streamed
+  Model M;
+  M.seed = ES.seed;
+  M.failset = &ES.failset;
+  ModelCall mc;
+  std::string e;
+  if (!M.ask(48, mc, e)) abort();
+  M.d.instantiate(e);
+  size_t pos = 0;
+  while (pos < total && o.ok) {
+    if (M.d.gens >= INTERVAL) {
+      if (!M.ask(32, mc, e)) abort();
+      M.d.reseed(e);
+    }
+    size_t n = std::min(total - pos, MAXGEN);
+    std::string want = M.d.generate(n);
+    if (pos == 0 || pos + n > tail0) {
+      size_t from = pos < tail0 && pos != 0 ? tail0 - pos : 0;
+      if (memcmp(out + pos + from, want.data() + from, n - from) != 0) {
+        size_t p = from;
+        while (out[pos + p] == (uint8_t)want[p]) p++;
+        o.fail("drbg-output", "one request of " + std::to_string(total) + " bytes: output differs from HMAC_DRBG(SHA-256) at byte " + std::to_string(pos + p) + " (generate call " +
+                                  std::to_string(pos / MAXGEN) + " of the request): got " + hex(std::string((char *)out + pos + p, std::min<size_t>(16, n - p))) + ".. expected " +
+                                  hex(want.substr(p, 16)) + "..");
+      }
+    }
+    pos += n;
+  }
+  if (o.ok && ES.asked != mc.asked)
+    o.fail("entropy-schedule", "one request of " + std::to_string(total) + " bytes: the OS entropy source was asked " + std::to_string(ES.asked.size()) + " times, the SP 800-90A schedule requires " +
+                                   std::to_string(mc.asked.size()) + " (48 bytes, then 32 after every 256 generate calls)");
+  munmap(out, nwin * WIN);
+  close(mfd);
+  return o;
+}
+
 // ---------------------------------------------------------------- scripted kernel (sub "osread")
 // ops: seed{s} api{0 entropy_read | 1 init/fill*/done} open{errno} rd{kind,n}* cl{kind}* fill{len}*
 //   rd kinds: 0 DATA n bytes (1..count), 1 EOF, 2 EINTR, 3 hard error errno=n
@@ -692,6 +782,13 @@ int main(int argc, char **argv) {
   drbg.fork = true;
   drbg.timeout_s = 120;
   subs.push_back(drbg);
+  Sub giant{"giant",
+            "thorough only: ONE crypto_entropy_read request of 2^32 + k bytes (k in 65536..140000: 65537 or more full generate calls, 256 reseeds) into aliased address space; the first generate call, "
+            "everything from 2^32 - 2 MiB to the end, and the lengths and number of entropy requests are compared with the streamed HMAC_DRBG model. Fresh process. Always non-trivial",
+            gen_giant, run_giant};
+  giant.fork = true;
+  giant.timeout_s = 3600;
+  subs.push_back(giant);
   subs.push_back({"osread",
                   "real util/entropy.c over a scripted /dev/urandom (ld --wrap=open,read,close): reads returning 1..n bytes, EOF, EINTR, "
                   "EIO/EAGAIN/EBADF/ENXIO, open failure, close EINTR/EIO; entropy_read and init/fill*/done. Oracle: 0 => buffer == the bytes the "
